@@ -923,7 +923,7 @@ class Ex:
     def ex_BoolOp(self, e):
         is_and = isinstance(e.op, ast.And)
         acc = None  # z3 Bool accumulated
-        saved = len(self.pc)
+        mine = []  # short-circuit assumptions added here (removed afterwards; facts assumed by callees stay)
         try:
             for i, sub in enumerate(e.values):
                 v = self.ev(sub)
@@ -933,17 +933,23 @@ class Ex:
                         return False if acc is None else VBool(z3.BoolVal(False))
                     if (not is_and) and t:
                         if acc is None:
-                            return v if i == 0 or True else True
+                            return v
                         return VBool(z3.BoolVal(True))
                     continue
                 acc = t if acc is None else (z3.And(acc, t) if is_and else z3.Or(acc, t))
                 # later operands are only evaluated when this one did not decide
-                self.pc.append(t if is_and else z3.Not(t))
+                g = t if is_and else z3.Not(t)
+                self.pc.append(g)
+                mine.append(g)
             if acc is None:
                 return is_and
             return VBool(acc)
         finally:
-            del self.pc[saved:]
+            for g in mine:
+                for k in range(len(self.pc) - 1, -1, -1):
+                    if self.pc[k] is g:
+                        del self.pc[k]
+                        break
 
     def ex_BinOp(self, e):
         return self.binop(e.op, self.ev(e.left), self.ev(e.right), e)
